@@ -179,3 +179,79 @@ def transposable_scores(tier="quick"):
                                                                               for i, (st, al) in enumerate(itertools.product("CDEFGAB", (-2, -1, 0, 1, 2)))][:20])])
         out.append(("all_spellings", s4))
     return out
+
+
+# ------------------------------------------------------------------------------------------- catalogues
+def rich_part(pid="P1", divs=4):
+    """two staves, two voices, chord with unequal durations, tie over barline, grace note, slur, tuplet, dynamics, tempo,
+    key/time signature change, pickup measure"""
+    sc = _sc()
+    d = divs
+
+    def extra(part, byid):
+        sl = sc.Slur(byid["n1"], byid["n3"])
+        part.add(sl, byid["n1"].start.t, byid["n3"].end.t)
+        tup = sc.Tuplet(byid["t0"], byid["t2"], actual_notes=3, normal_notes=2, actual_type="eighth", normal_type="eighth")
+        part.add(tup, byid["t0"].start.t, byid["t2"].end.t)
+        part.add(sc.ConstantLoudnessDirection("f"), 1 * d)
+        part.add(sc.Tempo(100, "q"), 0)
+        part.add(sc.TimeSignature(3, 4), 9 * d)
+        part.add(sc.KeySignature(2, "major"), 9 * d)
+        part.add(sc.Words("dolce"), 5 * d)
+    q = d
+    notes = [("n0", 0, q, "G", None, 4, 1, 1),  # pickup
+             ("n1", 1 * q, 2 * q, "C", None, 5, 1, 1), ("n1c", 1 * q, q, "E", None, 5, 1, 1),  # chord, unequal durations
+             ("n2", 3 * q, q, "D", 1, 5, 1, 1), ("n3", 4 * q, q, "E", 0, 5, 1, 1),
+             ("n4", 5 * q, 4 * q, "F", None, 4, 1, 1), ("n4t", 9 * q, 2 * q, "F", None, 4, 1, 1),  # tie over barline
+             ("b0", 1 * q, 4 * q, "C", None, 3, 2, 2), ("b1", 5 * q, 4 * q, "G", -1, 2, 2, 2), ("b2", 9 * q, 3 * q, "A", None, 2, 2, 2),
+             ("t0", 11 * q, q * 2 // 3 if (q * 2) % 3 == 0 else q, "A", None, 4, 1, 1),
+             ]
+    if (2 * q) % 3 == 0:
+        u = 2 * q // 3
+        notes[-1] = ("t0", 11 * q - 0, u, "A", None, 4, 1, 1)
+        notes += [("t1", 11 * q + u, u, "B", None, 4, 1, 1), ("t2", 11 * q + 2 * u, u, "C", 1, 5, 1, 1)]
+        notes = [n for n in notes if n[0] != "n4t"] + [("n4t", 9 * q, 2 * q, "F", None, 4, 1, 1)]
+    else:
+        notes = notes[:-1] + [("t0", 11 * q, q // 2, "A", None, 4, 1, 1), ("t1", 11 * q + q // 2, q // 2, "B", None, 4, 1, 1),
+                              ("t2", 12 * q - 0, 0, "C", 1, 5, 1, 1)]
+    part = build_part(pid, divs, ts=((0, 4, 4),), notes=[n for n in notes if n[2] > 0], ties=[("n4", "n4t")],
+                      graces=[("g0", 3 * q, "C", 1, 5, 1, 1, "n2")], key=(-1, "major"),
+                      clefs=[(0, 1, "G", 2), (0, 2, "F", 4)], measures=[(0, q), (q, 5 * q), (5 * q, 9 * q), (9 * q, 12 * q)],
+                      extra=lambda p, b: extra(p, b) if "t2" in b else None)
+    return part
+
+
+def all_scores(tier="quick"):
+    import os
+    import partitura as pt
+    out = list(transposable_scores(tier))
+    out.append(("rich_divs12", lambda: simple_score([rich_part("P1", 12)])))
+    out.append(("rich_two_parts", lambda: simple_score([rich_part("P1", 6), build_part("P2", 4, notes=[("x0", 0, 8, "C", None, 3, 1, 1), ("x1", 8, 8, "D", None, 3, 1, 1)])])))
+    base = os.path.join(os.path.dirname(pt.__file__), "..", "tests", "data", "musicxml")
+    files = ["test_note_ties.xml", "test_grace_note.xml", "test_polyphonic.xml", "test_unfold_timeline.xml", "test_anacrusis.xml"]
+    if tier == "thorough":
+        files += ["test_unfold_complex.xml", "test_unfold_dacapo.xml", "test_unfold_volta_numbers.xml", "test_part_group.xml",
+                  "test_multi_part_change_divs.xml", "test_tuplet_attributes.musicxml", "test_cross_staff_voices.musicxml",
+                  "mozart_k265_var1.musicxml", "test_partial_measures.xml", "test_clef_map.musicxml"]
+    for f in files:
+        path = os.path.join(base, f)
+        if os.path.exists(path):
+            out.append(("file:" + f, (lambda p: (lambda: pt.load_musicxml(p)))(path)))
+    return out
+
+
+def build_performance(notes, controls=(), programs=(), pid="PP", ppq=480, mpq=500000, track=0):
+    import partitura.performance as pf
+    nl = [dict(id="n%d" % i, midi_pitch=p, note_on=on, note_off=off, velocity=v, track=track, channel=ch)
+          for i, (p, on, off, v, ch) in enumerate(notes)]
+    cl = [dict(number=num, time=t, value=val, track=track, channel=0) for (num, t, val) in controls]
+    pl = [dict(time=t, program=pr, track=track, channel=ch) for (t, pr, ch) in programs]
+    return pf.PerformedPart(nl, id=pid, part_name=pid, controls=cl, programs=pl, ppq=ppq, mpq=mpq)
+
+
+def all_performances(tier="quick"):
+    import partitura.performance as pf
+    p1 = build_performance([(60, 0.0, 0.5, 64, 0), (64, 0.5, 1.0, 70, 0), (67, 1.0, 2.0, 50, 1), (60, 1.5, 2.5, 90, 0)],
+                           controls=[(64, 0.2, 127), (64, 1.2, 0), (67, 0.1, 100), (64, 1.7, 80), (64, 3.0, 10)], programs=[(0.0, 5, 0)])
+    p2 = build_performance([(72, 0.25, 0.75, 100, 2), (48, 0.0, 3.0, 30, 3)], pid="PP2", track=1)
+    return [pf.Performance(id="perf", performedparts=[p1]), pf.Performance(id="perf2", performedparts=[p1, p2])]
